@@ -154,6 +154,11 @@ def job(args):
     has_N = any(s in ("N", "n") for s in sig)
     for kind, N, p in pts:
         try:
+            build_args(sig, modname, N, p)
+        except KeyError as e:  # a parameter this driver does not know: harness gap, not a verdict
+            out.append((kind, N, p, "harness", 0.0, 0.0, 0.0, f"unknown parameter {e}"))
+            continue
+        try:
             a = _call(modname, fn, sig, N, p)
             if not has_N:
                 out.append((kind, N, p, "const", float(np.abs(a.imag).max()), float(np.abs(a).max()), 0.0, None))
@@ -251,6 +256,10 @@ def run(ck):
                 # e.g. FHMRUVV at nf=6, poles: a refusal is not a value
                 ck.case(key, nontrivial=False)
                 ck.ok()
+                continue
+            if what == "harness":
+                ck.case(key, nontrivial=False)
+                ck.inconclusive(f"{site}: driver cannot build arguments ({info})")
                 continue
             if what == "error":
                 ck.case(key, nontrivial=False)
